@@ -287,6 +287,14 @@ def gen_fuzz_cases(r, tier, sds):
                 r.shuffle(rest); cc = keep[:200] + rest[:60]
             for ops, kind in cc:
                 add(s[0], ops, s[2], kind)
+    # (b8) COFF string table at EOF with "/<n>" section names; version resources with 60..130 distinct keys (dictionary growth past its initial 64 slots)
+    for s in sds:
+        if s[2] in ("pe", "dotnet") and len(s[1]) <= (420000 if quick else 3000000):
+            cc = M.coff_name_cases(r, s[1])
+            if quick and len(cc) > 16:
+                r.shuffle(cc); cc = cc[:16]
+            for ops, kind in cc + M.many_keys_cases(r, s[1]):
+                add(s[0], ops, s[2], kind)
     # (c) truncation at every structure boundary of every seed (all deltas for the smallest seed of each format)
     for fmt in fmts:
         small = min(per_fmt[fmt], key=lambda s: len(s[1]))
